@@ -192,6 +192,7 @@ structure Decl where
   inherits : List String
   save : Bool := false              -- #pragma save_binary in force at the end of the file
   ssw : Option Nat := none          -- number of string switches in the source (declared by the generator)
+  refuse : Bool := false            -- the master refuses to have this program saved
   deriving Repr, Inhabited
 
 structure JState where
@@ -295,7 +296,8 @@ def caseLine (s : JState) (line : String) : JState :=
     | none => s
   | "prog" :: name :: rest =>
     { s with decls := { name := name, includes := csv (kv rest "inc"), inherits := csv (kv rest "inh"),
-                        save := kv rest "save" == "1", ssw := (kv rest "ssw").toNat? } :: s.decls.filter (·.name != name) }
+                        save := kv rest "save" == "1", ssw := (kv rest "ssw").toNat?,
+                        refuse := kv rest "refuse" == "1" } :: s.decls.filter (·.name != name) }
   | ["expect", call, res] => { s with expects := (call, res) :: s.expects.filter (·.1 != call) }
   | ["now", t] => { s with ctime := max s.ctime (t.toNat?.getD 0) }
   | "incsearch" :: prog :: cands => { s with incsearch := s.incsearch ++ [(prog, cands)] }
@@ -486,8 +488,8 @@ def traceLine (s : JState) (unitSeen : Nat) (line : String) : JState × Nat :=
                 resolved := setKey s.resolved name (resolveNow s name) },
        unitSeen)
     | none =>
-      -- not written: right only when the program was compiled against an out-of-date parent
-      if old.isEmpty then (s.flag s!"save-failed {name}", unitSeen) else (s, unitSeen)
+      -- not written: right only when the program was compiled against an out-of-date parent or the master refuses
+      if old.isEmpty && !(declOf s name).refuse then (s.flag s!"save-failed {name}", unitSeen) else (s, unitSeen)
   | "restarted" :: _ => ({ s with simulTouchedSinceRestart := false }, unitSeen)
   | "D" :: tag :: rest =>
     let d := (s.cur.lookup tag).getD {}
